@@ -281,6 +281,20 @@ class Fold:
     def out(self, q, w):
         return self.run(q, w)[1]
 
+    def pyrun_codes(self, q, s):
+        """Concrete execution; output as a list of ints (may contain non-character markers)."""
+        st = tuple(q)
+        out = []
+        _CONCRETE[0] = True
+        try:
+            for ch in s:
+                st, o = self.step(st, ord(ch) if isinstance(ch, str) else ch)
+                st = tuple(int(x) for x in st)
+                out.extend(o)
+        finally:
+            _CONCRETE[0] = False
+        return st, out
+
     def pyrun(self, q, s):
         """Concrete execution on a Python str (used by replay / cross-check)."""
         st = tuple(q)
@@ -557,6 +571,11 @@ def prepare(assumptions, goal, rounds=12):
         _collect_rep(e, seen, set())
     for (ch, nid), n in list(seen.items()):
         ass.append(rep_unfold(ch, n))
+    rd = {}
+    for e in ass + [goal]:
+        _collect_recdefs(e, rd, set())
+    for t in rd.values():
+        ass.append(RECDEFS[t.decl().name()].unfold(*t.children()))
     # empty-word instances of the fold equations for the applications that stayed opaque
     apps = {}
     for e in ass + [goal]:
@@ -583,6 +602,43 @@ def _collect_fold_apps(e, acc, visited):
                 acc[e.get_id()] = e
         for k in e.children():
             _collect_fold_apps(k, acc, visited)
+
+
+RECDEFS = {}
+
+
+class RecDef:
+    """f(args..., n) defined by recursion on the natural number n:
+         f(args, n) = base(args)                      if n <= 0
+                    = step(args, n - 1, f(args, n-1)) otherwise
+    Only instances of this equation (for the argument tuples that occur in an obligation) are given to the
+    solver (one level per occurrence).  Total and terminating by construction, hence a conservative extension."""
+
+    def __init__(self, name, arg_sorts, result_sort, base, step):
+        self.name = name
+        self.f = z3.Function(name, *(list(arg_sorts) + [Int, result_sort]))
+        self.base, self.step = base, step
+        RECDEFS[name] = self
+
+    def __call__(self, *args):
+        args = [zint(a) for a in args]
+        return self.f(*args)
+
+    def unfold(self, *args):
+        *xs, n = args
+        return self.f(*args) == z3.If(n <= 0, self.base(*xs), self.step(*xs, n - 1, self.f(*(list(xs) + [n - 1]))))
+
+
+def _collect_recdefs(e, acc, visited):
+    if e.get_id() in visited:
+        return
+    visited.add(e.get_id())
+    if z3.is_app(e):
+        nm = e.decl().name()
+        if nm in RECDEFS and e.decl().kind() == z3.Z3_OP_UNINTERPRETED and e.num_args() > 0:
+            acc[e.get_id()] = e
+        for k in e.children():
+            _collect_recdefs(k, acc, visited)
 
 
 def _collect_rep(e, acc, visited):
